@@ -114,6 +114,15 @@ def run_case(case, ctx):
         # one source that holds X and 'X OR Y' (Boolean algebra would absorb Y), a Meson subproject with a file of its own
         (root / "absorb.py").write_text("# SPDX-FileCopyrightText: 2020 Absorb\n# SPDX-License-Identifier: MIT\n# SPDX-License-Identifier: MIT OR Apache-2.0\n"
                                         "# SPDX-License-Identifier: 0BSD AND (0BSD OR ISC)\n")
+        # one expression in two spellings (operands swapped): whichever the tool keeps, it keeps the same one in every run
+        (root / "twice.py").write_text("# SPDX-FileCopyrightText: 2020 Twice\n# SPDX-License-Identifier: ISC OR Zlib\n# SPDX-License-Identifier: Zlib OR ISC\n"
+                                       "# SPDX-License-Identifier: (Zlib OR ISC)\n")
+        if mode == "toml":
+            (root / "twice_toml.txt").write_text("t\n")
+            (root / "twice" ).mkdir(exist_ok=True)
+            (root / "twice" / "x.txt").write_text("x\n")
+            (root / "twice" / "REUSE.toml").write_text('version = 1\n[[annotations]]\npath = "x.txt"\nSPDX-FileCopyrightText = "2020 T"\n'
+                                                      'SPDX-License-Identifier = ["ISC OR Zlib", "Zlib OR ISC", "(Zlib OR ISC)"]\n')
         (root / "subprojects" / "libfoo").mkdir(parents=True, exist_ok=True)
         (root / "subprojects" / "libfoo" / "foo.c").write_text("int foo;\n")
         (root / "deep" / "er" / "still").mkdir(parents=True)
